@@ -131,6 +131,11 @@ size_t ParseScalableInteger(const void *buff_ptr, size_t buff_size, uint64_t &ou
     if (!is_completed)
         return 0;
 
+    //! 10字节的编码最大只能表示到 UINT64_MAX，超出范围的（移位时会丢失高位）视为非法
+    if (read_bytes == 10 &&
+        ((byte_ptr[0] & 0x7F) != 0 || read_value > (UINT64_MAX - k10ByteMin)))
+        return 0;
+
     //! 转换成真实数值
     out_value = _min_value_tbl[read_bytes] + read_value;
 
